@@ -109,6 +109,11 @@ enum Op {
     Irq(u8),
     Rte,
     SetCcr(u8),
+    /// the guest installs a handler for vector v through the MES call (TRAPA #0, ER0 = 113): another writer
+    /// of the vector table - a later interrupt must enter what the table holds *then*
+    SetHandler(u8, u32),
+    /// the guest stores a long word into the vector's table entry (MOV.L ER0,@aa:24)
+    StoreVec(u8, u32),
 }
 
 struct History {
@@ -129,11 +134,20 @@ fn build_history(e: &mut Ent) -> History {
     let n = 1 + e.below(40) as usize;
     let mut ops = vec![];
     let mut depth = 0usize;
+    // vectors of this history come from a small pool now and then, so that the table entry an interrupt
+    // uses has been rewritten (by set_handler, by a store, by both) before
+    let pool = [1 + e.below(63) as u8, 1 + e.below(63) as u8];
     for _ in 0..n {
-        let op = match e.below(8) {
+        let vec_of = |e: &mut Ent| if e.chance(1, 2) { pool[e.below(2) as usize] } else { 1 + e.below(63) as u8 };
+        let op = match e.below(10) {
             0 | 1 => Op::Trap(1 + e.below(3) as u8),
-            2 | 3 => Op::Irq(1 + e.below(63) as u8),
+            2 | 3 => Op::Irq(vec_of(e)),
             4 | 5 | 6 if depth > 0 => Op::Rte,
+            7 => {
+                let v = if e.chance(1, 8) { e.pick(&[0u8, 64, 200, 255, 9, 10, 11]) } else { vec_of(e) };
+                Op::SetHandler(v, (hbase + 0x10 * (1 + e.below(63))) | e.upper_byte())
+            }
+            8 => Op::StoreVec(if e.chance(1, 4) { 9 + e.below(3) as u8 } else { vec_of(e) }, (hbase + 0x10 * (1 + e.below(63))) | e.upper_byte()),
             _ => Op::SetCcr(e.u8()),
         };
         match op {
@@ -171,8 +185,25 @@ fn run_history(emu: &mut Emu, h: &History) -> Result<(usize, usize), String> {
     let mut stage = 0u8; // 0 = fresh op, 1 = instruction patched / ccr prepared
     let mut entries = 0usize;
     let mut maxd = 0usize;
-    let opts = LsOpts { quirks: &[], max_steps: 200, full_dram: false, compare_memory: true };
+    let mut pending: std::collections::VecDeque<Ctl> = Default::default();
+    let mut sync_regs = false;
+    // argument block of the MES call: 8 bytes outside every handler slot, frame and start position
+    let blk = (h.prog.image[0].1[1] as u32) << 16 | (h.prog.image[0].1[2] as u32) << 8 | h.prog.image[0].1[3] as u32;
+    let blk = (blk & !0xf) + 0x600; // handler of vector 1 is hbase + 0x10: hbase + 0x610 .. is past the 63 handler slots
+    let opts = LsOpts { quirks: &[], max_steps: 400, full_dram: false, compare_memory: true };
     let out = lockstep(emu, &h.prog, &opts, &mut |v: &View| {
+        if let Some(c) = pending.pop_front() {
+            return c;
+        }
+        if sync_regs {
+            // the two helper instructions of the last op loaded ER0/ER1: RTE does not restore registers, so the
+            // contexts expected at the matching returns carry the new values
+            sync_regs = false;
+            for sh in shadow.iter_mut() {
+                sh.0[0] = v.er[0];
+                sh.0[1] = v.er[1];
+            }
+        }
         if let Some((er, ccr, pc)) = check_restore.take() {
             if *v.er != er || v.ccr != ccr || v.pc != pc {
                 violation = Some(format!(
@@ -225,6 +256,29 @@ fn run_history(emu: &mut Emu, h: &History) -> Result<(usize, usize), String> {
                 check_restore = shadow.pop();
                 Ctl::Step
             }
+            Op::SetHandler(vn, target) => {
+                i += 1;
+                let mut b = (vn as u32).to_be_bytes().to_vec();
+                b.extend(target.to_be_bytes());
+                let mut code = encode(&Insn::MovImm { sz: Sz::L, imm: 113, d: 0 });
+                code.extend(encode(&Insn::MovImm { sz: Sz::L, imm: blk, d: 1 }));
+                code.extend(encode(&Insn::Trapa(0)));
+                pending.push_back(Ctl::Patch(v.pc, code));
+                pending.push_back(Ctl::Step);
+                pending.push_back(Ctl::Step);
+                pending.push_back(Ctl::Step);
+                sync_regs = true;
+                Ctl::Patch(blk, b)
+            }
+            Op::StoreVec(vn, value) => {
+                i += 1;
+                let mut code = encode(&Insn::MovImm { sz: Sz::L, imm: value, d: 0 });
+                code.extend(encode(&Insn::Store { sz: Sz::L, s: 0, ea: Ea::A24(4 * vn as u32) }));
+                pending.push_back(Ctl::Step);
+                pending.push_back(Ctl::Step);
+                sync_regs = true;
+                Ctl::Patch(v.pc, code)
+            }
         }
     });
     if let Some(v) = violation {
@@ -239,7 +293,8 @@ fn run_history(emu: &mut Emu, h: &History) -> Result<(usize, usize), String> {
 
 fn history_json(h: &History) -> Value {
     json!({"kind": "history", "prog": h.prog.to_json(), "ops": h.ops.iter().map(|o| match o {
-        Op::Trap(n) => json!(["trap", n]), Op::Irq(n) => json!(["irq", n]), Op::Rte => json!(["rte", 0]), Op::SetCcr(c) => json!(["ccr", c]) }).collect::<Vec<_>>()})
+        Op::Trap(n) => json!(["trap", n]), Op::Irq(n) => json!(["irq", n]), Op::Rte => json!(["rte", 0]), Op::SetCcr(c) => json!(["ccr", c]),
+        Op::SetHandler(v, t) => json!(["sethandler", v, t]), Op::StoreVec(v, t) => json!(["storevec", v, t]) }).collect::<Vec<_>>()})
 }
 fn history_from_json(v: &Value) -> Option<History> {
     let prog = Prog::from_json(v.get("prog")?)?;
@@ -254,6 +309,8 @@ fn history_from_json(v: &Value) -> Option<History> {
                 "trap" => Op::Trap(n),
                 "irq" => Op::Irq(n),
                 "rte" => Op::Rte,
+                "sethandler" => Op::SetHandler(n, o.get(2)?.as_u64()? as u32),
+                "storevec" => Op::StoreVec(n, o.get(2)?.as_u64()? as u32),
                 _ => Op::SetCcr(n),
             })
         })
@@ -333,6 +390,23 @@ pub fn run(ctx: &Ctx) -> i32 {
                         st.evaluations += 1;
                         st.class("history: nested entries/returns");
                         st.class_n("history: entries", entries as u64);
+                        {
+                            // an interrupt whose table entry was rewritten earlier in the same history
+                            let mut rewritten: std::collections::BTreeSet<u8> = Default::default();
+                            let mut both = false;
+                            for o in &h.ops {
+                                match o {
+                                    Op::SetHandler(v, _) | Op::StoreVec(v, _) => {
+                                        rewritten.insert(*v);
+                                    }
+                                    Op::Irq(v) if rewritten.contains(v) => both = true,
+                                    _ => {}
+                                }
+                            }
+                            if both {
+                                st.class("history: interrupt through a table entry rewritten earlier (set_handler / guest store)");
+                            }
+                        }
                         if depth >= 2 {
                             st.class("history: nesting depth >= 2");
                             let key = key_hash(&(format!("{:?}", h.ops), h.prog.er[7], h.prog.pc));
@@ -360,7 +434,7 @@ pub fn run(ctx: &Ctx) -> i32 {
         w.stats.into_inner()
     });
     stats.merge(hstats);
-    let rule = "cases = single steps of TRAPA #1-#3 (all 256 CCR), interrupt acceptance for every vector 1-63 (every CCR value with I clear; through request + the run loop's poll), RTE on crafted frames, with vector/frame top bytes arbitrary, SP across RAM and DRAM incl. non-zero upper byte; plus histories of nested {TRAPA, interrupt, RTE, CCR change} up to depth 16 executed in lockstep with the reference and against a shadow stack of saved contexts (after entry;RTE registers, CCR and PC must equal the pre-entry context). Oracle = reference post-state (frame bytes, SP, I set, UI masked, PC from the low 24 bits of the vector) and the round trip. Non-trivial = entry with CCR not 0x00/0xff, or a history with nesting depth >= 2.";
+    let rule = "cases = single steps of TRAPA #1-#3 (all 256 CCR), interrupt acceptance for every vector 1-63 (every CCR value with I clear; through request + the run loop's poll), RTE on crafted frames, with vector/frame top bytes arbitrary, SP across RAM and DRAM incl. non-zero upper byte; plus histories of nested {TRAPA, interrupt, RTE, CCR change, vector-table entry rewritten by the MES set_handler call or by a guest store} up to depth 16 executed in lockstep with the reference and against a shadow stack of saved contexts (after entry;RTE registers, CCR and PC must equal the pre-entry context). Oracle = reference post-state (frame bytes, SP, I set, UI masked, PC from the low 24 bits of the vector) and the round trip. Non-trivial = entry with CCR not 0x00/0xff, or a history with nesting depth >= 2.";
     let mut extra = Map::new();
     extra.insert("masked_details".into(), json!(["UI after entry (the property allows it to change)"]));
     finish(ctx, P, stats, rule, vec!["reference model transcribed from the H8/300H programming manual (DESIGN Appendix A.5)".into()], extra)
